@@ -166,6 +166,14 @@ def mk_state(d):
     return BasicState(d) if isinstance(d, str) else BasicState(list(d))
 
 
+def mk_sv(terms):
+    from perceval.utils import StateVector
+    sv = StateVector()
+    for re_, im_, st in terms:
+        sv += complex(re_, im_) * StateVector(mk_state(st))
+    return sv
+
+
 def mk_svd(desc):
     """desc: [[p, [[re, im, state] ...]] ...]"""
     from perceval.utils import SVDistribution, StateVector
@@ -212,6 +220,19 @@ def op_simulator(s, circuits, op):
         if q == "evolve":
             r = s.evolve(mk_state(op[2]))
             return {"sv": v_sv(r), "lperf": float(s.logical_perf)}
+        if q == "evolve_sv":          # a superposed input: [[re, im, state] ...]
+            r = s.evolve(mk_sv(op[2]))
+            return {"sv": v_sv(r), "lperf": float(s.logical_perf)}
+        if q == "probs_sv":
+            r = s.probs(mk_sv(op[2]))
+            return {"dist": v_dist(r)}
+        if q == "evolve_svd":
+            r = s.evolve_svd(mk_svd(op[2]))
+            items = sorted(([v_sv(sv), float(p)] for sv, p in r["results"].items()),
+                           key=lambda e: json.dumps([t[0] for t in e[0]]))
+            rows = [[[idx] + t[0], t[1], t[2], p] for idx, (terms, p) in enumerate(items) for t in terms]
+            return {"svd": rows,
+                    "pperf": float(r["physical_perf"]), "lperf": float(r["logical_perf"])}
         if q == "probs_svd":
             r = s.probs_svd(mk_svd(op[2]), mk_detectors(op[3]) if len(op) > 3 else None)
             return {"dist": v_dist(r["results"]), "pperf": float(r["physical_perf"]), "lperf": float(r["logical_perf"])}
